@@ -33,7 +33,8 @@ META = {
                   "comparison operators.",
     "level_note": "Theorems are about exact arithmetic in Q (delta = exact value of the double 0.0001); float rounding of x-y and +delta is not modelled.  The "
                   "correspondence compares zero-ness, sign and feasibility on every case, the magnitude exactly where the float result equals the exact rational result "
-                  "(checked with fractions.Fraction, counted in the evidence) and within relative 2^-40 otherwise.  float(token) is a section variable (Python's float, "
+                  "(checked with fractions.Fraction, counted in the evidence) and within relative 2^-40 otherwise; binary64 overflow is not modelled either: an implementation "
+                  "result +inf is accepted against a finite exact value >= 2^1024-2^970 (H11.close), which is how huge finite penalties whose sum overflows are compared.  float(token) is a section variable (Python's float, "
                   "shipped per case as a table over the suffixes of the declared string); strings are restricted to code points < 256 in the model; thresholds inf/nan are "
                   "outside the model.  The second ladder (EpsilonDominance, core.py:920-928) is exercised by the oracle only; the Coq statement uses C02's model of "
                   "ParetoDominance.compare.  Trusted: Coq kernel + VM, the harness literal printer/shard runner, the identification of the driver's four test callables "
@@ -56,6 +57,8 @@ PAIR_VALUES = [repr(v) for v in (1 / 3, 0.1 + 0.2, 1234567.0, -1234.5678901, 6.0
                                  0.5, 0.0123456789, 1e-3, 1e16, 1e21, 1e22, 10 ** 22, 123456789012345678, 1.7976931348623157e308, 2.2250738585072014e-308,
                                  123456.7, 9.999999e-05, 100000.5, -5, 2.5e-7)]
 DELTA = Fraction(0.0001)
+OVERFLOW = Fraction(2) ** 1024 - Fraction(2) ** 970       # exact results from here on round to +inf in binary64
+FMAX = 1.7976931348623157e308
 
 
 def tok_number(tok):
@@ -269,7 +272,12 @@ def oracle_eval(ctx, ctors, intents, xs, s, p, rp=None):
         want = INF
     else:
         want = sum(abs(Fraction(v)) for v in parts)
-        ok = abs(cv) != INF and abs(Fraction(cv) - want) <= want * Fraction(1, 10 ** 12)
+        if want >= OVERFLOW:                                # finite violations whose sum is beyond the largest double: the float total is +inf
+            ok = cv == INF
+            if not s.feasible and ok:
+                pass
+        else:
+            ok = abs(cv) != INF and abs(Fraction(cv) - want) <= want * Fraction(1, 10 ** 12)
     if not ok:
         ctx.violation("total-is-not-sum-of-absolute-violations", "constraints %r on values %r: constraint_violation=%r, individual violations %r sum to %s" % (ctors, xs, cv, parts, float(want)), rp)
 
@@ -734,6 +742,50 @@ def run(ctx):
                     ctx.count()
     dist["feasible_vs_infeasible_pairs(Pareto+Epsilon dominance)"] = beats_done
     ctx.sample({"evaluate": {"constraints": [list(c) for c in meta[-1][1]], "values": [repr(x) for x in meta[-1][3]]}, "coq_case": lits[-1][:600]})
+
+    # ---- 3a. huge penalty values: finite individual violations whose SUM overflows -> total +inf, infeasible, no exception
+    big_specs = [(("str", "==0"), ("==", 0.0), [FMAX, -FMAX, 1e308, -1e308, 9e307, 8e307]),
+                 (("str", "<=0"), ("<=", 0.0), [FMAX, 1e308, 9e307, 8e307]),
+                 (("str", ">= 0"), (">=", 0.0), [-FMAX, -1e308, -9e307]),
+                 (("pair", "<", "1e300"), ("<", 1e300), [FMAX, 1e308, 9e307]),
+                 (("const", "GREATER_THAN_ZERO"), (">", 0.0), [-FMAX, -1e308, -8e307]),
+                 (("fun", 0), ("fun", 0), [FMAX, -FMAX, 1e308, 9e307]),
+                 (("fun", 1), ("fun", 1), [FMAX, -1e308, 8e307]),
+                 (("str", "<=-1e308"), ("<=", -1e308), [7e307, 1e307]),
+                 (("str", "!=5"), ("!=", 5.0), [5.0, 6.0])]
+    small_specs = [(("str", "<=5"), ("<=", 5.0), [4.0, 5.0, 7.5]), (("str", "==0.5"), ("==", 0.5), [0.5, 0.25]), (("fun", 2), ("fun", 2), [3.0])]
+    nover = nfin = 0
+    for it in range(ctx.scale(160, 1500)):
+        n = rng.randrange(2, 5)
+        nbig = rng.randrange(2, n + 1)
+        picks = [rng.choice(big_specs) for _ in range(nbig)] + [rng.choice(small_specs) for _ in range(n - nbig)]
+        rng.shuffle(picks)
+        ctors = [pk[0] for pk in picks]; intents = [pk[1] for pk in picks]; xs = [rng.choice(pk[2]) for pk in picks]
+        rp = {"kind": "eval", "ctors": [list(c) for c in ctors], "intents": [jintent(i) for i in intents], "xs": [repr(x) for x in xs]}
+        try:
+            s, p = evaluate(ctors, xs)
+        except Exception as e:  # noqa: BLE001
+            ctx.violation("evaluation-raises", "Problem.__call__ with constraints %r on values %r raised %s: %s (the individual violations are finite; their sum must be +inf)"
+                          % (ctors, xs, type(e).__name__, e), rp)
+            continue
+        ctx.count()
+        oracle_eval(ctx, ctors, intents, xs, s, p)
+        cv = s.constraint_violation
+        evs = [exact_viol(i, x) for i, x in zip(intents, xs)]
+        if sum(evs) >= OVERFLOW:
+            nover += 1
+            ctx.mark(("overflow", tuple(ctors), tuple(repr(x) for x in xs)))
+            if cv != INF or s.feasible:
+                ctx.violation("overflowing-total-not-infinite", "constraints %r on values %r: finite violations %r sum beyond the largest double, but constraint_violation=%r feasible=%r"
+                              % (ctors, xs, [float(v) for v in evs], cv, s.feasible), rp)
+        else:
+            nfin += 1
+        ex = exact_eval_flag(intents, xs, cv)
+        if ex is not None:
+            lits.append("KEval %s %s %s %s %s" % (C.list_lit([sp_lit(c) for c in ctors]), C.list_lit([C.xq_lit(x) for x in xs]), C.xq_lit(cv), C.bool_lit(bool(s.feasible)), C.bool_lit(ex)))
+            meta.append(("eval", ctors, intents, xs))
+    dist["huge_penalty_evaluations"] = {"sum_overflows_to_inf": nover, "huge_but_finite_sum": nfin}
+    ctx.sample({"overflow": "constraints ==0, ==0 on values 1.7976931348623157e308, 1e308: total +inf, infeasible, no exception", "coq_case": lits[-1][:400]})
 
     # ---- 3b. two-argument form: the stored text c.op and the copy Constraint(c) denote the same constraint
     nre = 0
